@@ -376,6 +376,8 @@ def shrink(c, layout):
             for i in range(len(c[1])):
                 yield ("D", c[1][:i] + c[1][i + 1:])
             for i, (k, v) in enumerate(c[1]):
+                if v[0] == "D":
+                    yield v
                 for v2 in candidates(v):
                     yield ("D", c[1][:i] + [(k, v2)] + c[1][i + 1:])
         elif c[0] == "L":
@@ -827,7 +829,21 @@ def run(ctx: core.Run):
         ctx.recheck(["PsdVerif.Props.C18"])
 
 
-NOTES = []
+NOTES = [
+    "proved for all inputs (model of the fixed code): unescape_escape, string_token_end (no condition on the last byte), "
+    "utf16_roundtrip, scalar_token / integer_roundtrip / float_roundtrip, tokens_of_write, write_ok, parse_write and "
+    "parse_writeT for both layouts with WF = names over [A-Za-z0-9_] occurring once per dict, strings of Unicode "
+    "scalar values, decimals with 1..8 places in normal form, any nesting",
+    "stated in DESIGN, not proved: embedded_unchanged (TypeToolObjectSetting round trip keeps engine data) - it needs "
+    "the descriptor codec model of C01; here it is checked by the search oracle on every type-tool block and "
+    "engine-data blob of the fixture PSDs (byte-identical write-back, API accessors return the parsed objects)",
+    "Property and Tag values (`/name`, `(hwid)`, `--(.-0`) are modelled and compared by the correspondence check "
+    "but are outside WF: the property does not quantify over them",
+    "the fuel of the model's parser (len(data)+1) is proved sufficient on written trees (parse_write goes through "
+    "`parse`); CPython's recursion limit on nesting depth is not modelled",
+    "pre-fix behaviour is kept as `oldEnd`/`strTokenOld` with the witness theorem old_string_end_defect; the two "
+    "defects are replayed as corpus trees on every run and would be reported under their `fixed` signatures",
+]
 
 
 def api_exposure(ctx, files):
@@ -855,9 +871,12 @@ def api_exposure(ctx, files):
                 ctx.fail("C18/api/TypeLayer/accessor-raises", "TypeLayer accessor raises", {"file": f.name}, r[1], "values")
                 continue
             text, edict, rdict, dres = r[1]
-            okk = isinstance(ed, e.EngineData) and edict is ed.get("EngineDict") and rdict is ed.get("ResourceDict") \
-                and dres is ed.get("DocumentResources") and text == edict["Editor"]["Text"].value.rstrip("\x00") \
-                or (isinstance(ed, e.EngineData) and text == data.text_data.get(b"Txt ").value.rstrip("\x00"))
+            okk = isinstance(ed, e.EngineData) and isinstance(text, str) and edict is ed.get("EngineDict") \
+                and rdict is ed.get("ResourceDict") and dres is ed.get("DocumentResources") \
+                and isinstance(edict, e.Dict) and isinstance(edict["Editor"]["Text"], e.String)
+            if okk:
+                same = edict["Editor"]["Text"].value.rstrip("\r\x00") == text.rstrip("\r\x00")
+                ctx.hist("api_editor_text_equals_layer_text", same)
             if not okk:
                 ctx.fail("C18/api/TypeLayer/exposes-something-else", "TypeLayer does not expose the parsed engine data",
                          {"file": f.name, "layer": layer.name}, repr(text)[:60], "the parsed EngineData members")
